@@ -1033,3 +1033,103 @@ def summarize(sim: Sim) -> dict:
         "fault_callbacks": [list(e[1:]) for e in sim.faults()][:10],
         "exceptions": [list(e[1:5]) for e in sim.excs()][:10],
     }
+
+
+# ------------------------------------------------------------------ single-handler rigs
+class CallResult:
+    __slots__ = ("out", "exc", "lib", "inds", "faults", "log")
+
+    def __init__(self, out, exc, lib, log):
+        self.out = out
+        self.exc = exc
+        self.lib = lib
+        self.log = log
+        self.inds = [e for e in log if e[0] == "ind"]
+        self.faults = [e for e in log if e[0] == "fault"]
+
+
+class Rig:
+    """One handler driven directly, one call at a time, with everything observed per call."""
+
+    def __init__(self, handler, log):
+        self.h = handler
+        self.log = log
+        self.dead = None  # non-library exception that ended the run
+
+    def _drain(self):
+        out = []
+        while True:
+            holder = self.h.get_next_packet()
+            if holder is None:
+                break
+            out.append(holder.pdu)
+        return out
+
+    def call(self, pdu=None, drain=True):
+        mark = len(self.log)
+        exc, lib = None, False
+        try:
+            self.h.state_machine(pdu)
+        except LIB_EXC as e:
+            exc, lib = e, True
+        except Exception as e:  # noqa: BLE001
+            exc = e
+            self.dead = e
+        out = self._drain() if drain else []
+        return CallResult(out, exc, lib, self.log[mark:])
+
+    def cancel(self, tid=None, drain=True):
+        mark = len(self.log)
+        exc, lib, r = None, False, None
+        try:
+            r = self.h.cancel_request(tid if tid is not None else self.h.transaction_id)
+        except LIB_EXC as e:
+            exc, lib = e, True
+        except Exception as e:  # noqa: BLE001
+            exc = e
+            self.dead = e
+        out = self._drain() if drain else []
+        res = CallResult(out, exc, lib, self.log[mark:])
+        return r, res
+
+    def tick(self, mode="after"):
+        d = CLOCK.next_deadline()
+        if d is None:
+            return False
+        CLOCK.now = d + (1 if mode == "after" else 0)
+        return True
+
+
+def dest_rig(cfg, vfs=None, keep_tracker=False):
+    install_clock()
+    CLOCK.reset()
+    if not keep_tracker:
+        workaround_shared_tracker()
+    log = []
+    h, user, fh = make_dest(cfg, log, vfs)
+    rig = Rig(h, log)
+    rig.user, rig.fh = user, fh
+    return rig
+
+
+def source_rig(cfg, vfs=None, extra_remote=()):
+    install_clock()
+    CLOCK.reset()
+    log = []
+    h, user, fh, seqp = make_source(cfg, log, vfs, extra_remote=extra_remote)
+    rig = Rig(h, log)
+    rig.user, rig.fh, rig.seqp = user, fh, seqp
+    return rig
+
+
+def pdu_conf_for(cfg, seq, mode=None, direction=Direction.TOWARDS_RECEIVER):
+    cfg = norm_cfg(cfg)
+    w = id_width(cfg)
+    return PduConfig(
+        source_entity_id=UnsignedByteField(cfg["src_id"][1], w),
+        dest_entity_id=UnsignedByteField(cfg["dst_id"][1], w),
+        transaction_seq_num=UnsignedByteField(seq % (1 << cfg["seq_width"]), cfg["seq_width"] // 8),
+        trans_mode=MODES[mode or eff_mode(cfg)],
+        crc_flag=CrcFlag.WITH_CRC if cfg["pdu_crc"] else CrcFlag.NO_CRC,
+        direction=direction,
+    )
